@@ -1,11 +1,11 @@
 #!/bin/bash
 # store_seed.sh <ID> <slot> "<demo command>" "<needs>" "<caught-by>"
-ID=$1; SLOT=$2; DEMO=$3; NEEDS=$4; CAUGHT=$5; OUT=/tmp/wt-$ID/OUT; D=/verif/seeded/$SLOT
+ID=$1; SLOT=$2; DEMO=$3; NEEDS=$4; CAUGHT=$5; OUT=${SEED_WT:-/tmp/wt-$ID}/OUT; D=/verif/seeded/$SLOT
 mkdir -p $D; cp $OUT/patch.diff $OUT/demo.diff $OUT/NOTES.md $D/
 python3 - "$ID" "$SLOT" "$DEMO" "$NEEDS" "$CAUGHT" <<'PY'
 import json,sys,re
 ID,SLOT,DEMO,NEEDS,CAUGHT=sys.argv[1:6]
-out='/tmp/wt-%s/OUT/'%ID
+import os; out=os.environ.get('SEED_WT','/tmp/wt-%s'%ID)+'/OUT/'
 def rd(f):
     try: return open(out+f).read()
     except Exception: return ''
